@@ -28,7 +28,7 @@ RULE = (
 )
 ASSUMPTIONS = [
     "both streams are compared after collapsing adjacent identical events (insensitive to how the shared queue coalesced)",
-    "nested bursts (makedirs) are not generated: the walk-after-mkdir duplicates are timing-dependent per inotify instance (C03 allows them) and are not a filter effect; default 0.5 s pairing delay; a mismatch consisting only of moved(s,d) versus deleted(s)+created(d) is classified inconclusive (pairing "
+    "a directory that just arrived or was renamed is not moved/removed again before a drain (synthetic descendant events are computed from the disk at emit time); nested bursts (makedirs) are not generated: the walk-after-mkdir duplicates are timing-dependent per inotify instance (C03 allows them) and are not a filter effect; default 0.5 s pairing delay; a mismatch consisting only of moved(s,d) versus deleted(s)+created(d) is classified inconclusive (pairing "
     "differences between two inotify instances), never a violation",
     "quiescence of a filtered stream is decided logically (poll parked + FIONREAD==0, delay-queue consumer parked, dispatcher idle), never by sleeping",
 ]
@@ -179,7 +179,11 @@ def run_case(b: Batch, cfg, filters, led, tp):
             if op is None:
                 break
             touches, names, hot = op_footprint(u, op)
-            if pacer.needs_drain(touches, names):
+            # stricter than the pacing condition: a directory that just arrived / was renamed is not moved or removed again
+            # before a drain, because the synthetic descendant events are computed from the disk at emit time and would
+            # legitimately differ between two emitters that get to it at different moments
+            again = op[0] in ("rename", "move_out", "rmdir", "rmtree") and (op[1] in pacer.hot or any(h.startswith(op[1] + "/") for h in pacer.hot))
+            if again or pacer.needs_drain(touches, names):
                 why = sess.drain()
                 pacer.drained()
                 if why:
